@@ -123,7 +123,9 @@ template <typename F> static void op_castround(const Case& c, Outcome& o) {
   if (!pad_ok(m4)) { o.bad(3, "mat4_cast(q): last row/column is not that of the identity"); return; }
   CHK(12, dmm(toL(glm::toMat3(q)), R), 16 * u, 2 * nd, 4, "gtx toMat3(q) is not the rotation matrix of q");
   CHK(13, dmm(toL3(glm::toMat4(q)), R), 16 * u, 2 * nd, 5, "gtx toMat4(q) is not the rotation matrix of q");
+#if GLM_HAS_EXPLICIT_CONVERSION_OPERATORS   // the conversion operators qua -> mat3/mat4 only exist from C++11 on (GLM_FORCE_CXX98/03 builds have none)
   CHK(14, dmm(toL(glm::mat<3, 3, F>(q)), R), 16 * u, 2 * nd, 6, "explicit mat3(q) is not the rotation matrix of q");
+#endif
   const L tq = 16 * u, tn = 2 * nd;
   { Q g = glm::quat_cast(m3); o.res(FT<F>::bits(g.w), FT<F>::bits(g.x)); CHK(15, dqs(toL(g), qh), tq, tn, 7, "quat_cast(mat3_cast(q)) is neither q nor -q"); }
   CHK(16, dqs(toL(glm::quat_cast(m4)), qh), tq, tn, 8, "quat_cast(mat4_cast(q)) is neither q nor -q");
@@ -178,6 +180,31 @@ template <typename F> static void op_angleaxis_roundtrip(const Case& c, Outcome&
       if (glm::length(glm::vec<3, F>(lg.x, lg.y, lg.z)) < std::numeric_limits<F>::epsilon() && e.w == 0 && e.x == 0 && e.y == 0 && e.z == 0) o.kf = KF_EXP_ZERO;
       return; }
     MEAS(32, "exp(log(q)) is not the rotation of q", ee, 32 * u, 4 * nd); }
+}
+
+
+// ============================================================== op: quaternion powers (ext/quaternion_exponential pow, sqrt)
+// q = m (cos t, n sin t) with t in [0, pi]  =>  pow(q, y) = m^y (cos yt, n sin yt); pow(q,1) = q, pow(q,2) = q*q, pow(q,-1) = inverse(q),
+// pow(q,0) is exactly the identity, sqrt(q) is pow(q, 1/2) and squares back to q.  The principal angle is the one of q itself (not of -q).
+static const double POWY[] = {0.0, -0.0, 1e-9, 0.25, 0.5, 1.0, 1.5, 2.0, 3.0, -1.0, -0.5};
+template <typename F> static void op_pow(const Case& c, Outcome& o) {
+  typedef glm::qua<F> Q; const L u = FT<F>::u();
+  Q q = getq<F>(c.w); const F y = (F)POWY[c.w[4]]; LQ ql = toL(q); L m = sqrtl(qn2(ql)), vl = sqrtl(ql.x * ql.x + ql.y * ql.y + ql.z * ql.z);
+  o.cls(y == 0 ? 0 : ql.w < -0.88L ? 1 : fabsl(ql.w) > 0.88L ? 2 : 3);
+  // a negative real number has no principal non-integer power (the axis is undetermined): outside the domain
+  if (ql.w < 0 && vl < 1e-4L * m) { o.nontrivial = false; return; }
+  if (!(m > 0.5L && m < 2)) { o.nontrivial = false; return; }
+  Q g = glm::pow(q, y); o.res(FT<F>::bits(g.w), FT<F>::bits(g.x)); o.dg(FT<F>::bits(g.w)); o.dg(FT<F>::bits(g.x)); o.dg(FT<F>::bits(g.y)); o.dg(FT<F>::bits(g.z));
+  if (y == 0) { if (!(g.w == 1 && g.x == 0 && g.y == 0 && g.z == 0)) { o.exp(FT<F>::bits(1), 0); o.bad(1, "pow(q, 0) is not exactly the identity quaternion"); } return; }
+  L t = atan2l(vl, ql.w), my = powl(m, (L)y), sc = vl > 0 ? my * sinl((L)y * t) / vl : 0; LQ want = { my * cosl((L)y * t), ql.x * sc, ql.y * sc, ql.z * sc };
+  if (vl == 0) want = { powl(ql.w, (L)y), 0, 0, 0 };
+  const L tol = 64 * u * (1 + fabsl((L)y)) * (my > 1 ? my : 1);
+  CHK(60, dqq(toL(g), want), tol, 0, 2, "pow(q, y) is not |q|^y (cos y t, n sin y t) for q = |q| (cos t, n sin t)");
+  if (y == F(0.5)) { Q s = glm::sqrt(q); if (!(s.w == g.w && s.x == g.x && s.y == g.y && s.z == g.z)) { o.bad(3, "sqrt(q) differs from pow(q, 1/2)"); return; }
+    CHK(61, dqq(toL(s * s), ql), 64 * u * m, 0, 4, "sqrt(q)*sqrt(q) is not q"); }
+  if (y == 1) CHK(62, dqq(toL(g), ql), 16 * u * m, 0, 5, "pow(q, 1) is not q");
+  if (y == 2) CHK(63, dqq(toL(g), toL(q * q)), 64 * u * m * m, 0, 6, "pow(q, 2) is not q*q");
+  if (y == -1) CHK(64, dqq(toL(g), toL(glm::inverse(q))), 64 * u / m, 0, 7, "pow(q, -1) is not inverse(q)");
 }
 
 // ============================================================== op 5: axis-angle and single-axis Euler forms
@@ -489,7 +516,7 @@ template <typename F> static uint64_t named_member_digest(const Domain& rot) {
   Q prev = Q::wxyz(1, 0, 0, 0); const V3 t(2, 3, 5), t2(7, -11, 13);
   for (uint64_t i = 0; i < rot.size; ++i) { rot.at(i, w); Q q = getq<F>(w);
     mv(q * t); glm::mat<3, 3, F> m = glm::mat3_cast(q); for (int c = 0; c < 3; ++c) mv(m[c]); mq(glm::quat_cast(m)); mq(q * prev); mq(glm::angleAxis(glm::angle(q), glm::axis(q)));
-    mq(Q(glm::eulerAngles(q))); mq(glm::inverse(q)); mq(glm::conjugate(q)); mq(Q(t, q * t2)); mq(glm::exp(glm::log(q))); mq(glm::rotate(q, F(0.75), t));
+    mq(Q(glm::eulerAngles(q))); mq(glm::inverse(q)); mq(glm::conjugate(q)); mq(Q(t, q * t2)); mq(glm::exp(glm::log(q))); mq(glm::rotate(q, F(0.75), t)); mq(glm::pow(q, F(0))); mq(glm::pow(q, F(0.75))); mq(glm::sqrt(q));
     glm::tdualquat<F, glm::defaultp> d(q, t2); mq(d.dual); mv(d * t); prev = q; }
   return h; }
 
@@ -510,6 +537,7 @@ template <typename F> static void reg(Engine& E, const std::vector<LQ>& base, co
     Op& op = E.add("axis-angle and single-axis forms = Rodrigues" + T, op_axisangle<F>); op.quick = {product("ANGLES x 26 lattice axes x TAGVEC", {ang, range("AXIS26", 0, 26, true), tagv})}; op.classes = {"angle~0 (mod 2pi)", "angle~pi (mod 2pi)", "generic"}; }
   { Op& op = E.add("quat(eulerAngles(q)) ~ q" + T, op_euler_roundtrip<F>); op.quick = {rotq}; op.thorough = {rott}; op.classes = EULCLASSES; }
   { Domain no = make_near_opposite<F>(); Op& op = E.add("qua(u,v)*u || v, rotation(u,v)" + T, op_twovec<F>); op.quick = {product("VEC3L^2", {v3, v3}), no}; op.classes = UVCLASSES; }
+  { Op& op = E.add("pow(q,y), sqrt(q) = |q|^y (cos yt, n sin yt)" + T, op_pow<F>); op.quick = {product(rotq.name + " x POWY(0,-0,1e-9,1/4,1/2,1,3/2,2,3,-1,-1/2)", {rotq, range("Y", 0, 11, true)})}; op.thorough = {product(rott.name + " x POWY", {rott, range("Y", 0, 11, true)})}; op.classes = {"y=0", "w<-0.88", "w>0.88", "generic"}; }
   { Op& op = E.add("q*inverse(q) = 1, conjugate = inverse" + T, op_inverse<F>); op.quick = {rotq}; op.thorough = {rott}; op.classes = QCLASSES; }
   { Domain aq = make_angles<F>("EULER_ANGLES_quick(k pi/8; +-pi/2 +- 10^-j, +-10^-j, +-(pi +- 10^-j), j in {1,3,5,7,9})", {1, 3, 5, 7, 9}, true), at = make_angles<F>("EULER_ANGLES(k pi/8; +-pi/2 +- 10^-j, +-10^-j, +-(pi +- 10^-j), j = 1..9)", {1, 2, 3, 4, 5, 6, 7, 8, 9}, true);
     Op& op = E.add("eulerAngleABC = A*B*C, eulerAngleABC(extractEulerAngleABC(M)) = M" + T, op_euler3<F>);
